@@ -22,7 +22,8 @@ Definition tr (a : bool) (i : ik) : option bool :=
   | ILock, false => Some true
   | ILock, true => None
   | IUnlock, true => Some false
-  | IUnlock, false => None
+  | IUnlock, false => Some false   (* storing `final` into a free cell keeps it free (e.g. after the optimiser removed
+                                       a lock store that was immediately overwritten by the unlock store) *)
   | ICallLock, false => Some false
   | ICallLock, true => None
   | IOther, a => Some a
